@@ -2,6 +2,8 @@
 
 package transfer
 
+import "github.com/sheerbytes/sheerbytes/pkg/manifest"
+
 // Exports for the transfer harness (overlay only).
 
 func VerifReadControlMessage(s Stream) (byte, any, error) { return readControlMessage(s) }
@@ -13,3 +15,6 @@ const (
 
 // VerifBitmap returns a copy of the sidecar's bitmap bytes.
 func (s *Sidecar) VerifBitmap() []byte { return s.MarshalBitmap() }
+
+// VerifFileKey exposes the file key (hash of id or rel_path) used on the wire.
+func VerifFileKey(it manifest.FileItem) uint64 { return fileKeyForItem(it) }
